@@ -12,6 +12,12 @@ recovery, before and after helper inlining).  Every rewrite preserves behaviour 
                          clause and the nesting alike, so C3 only fixes the SHAPE they walk)
 
 C3 is the direction chosen because guard clauses are what the reviewed tree mostly uses.
+
+  C4  match lowering     ``match s: case "a": A  case B(): C  case _: D`` with value / singleton /
+                         or / class-without-arguments / wildcard / capture patterns
+                                                                          ->  if s == "a": A elif isinstance(s, B): C else: D
+                         (subject bound to a temporary first unless it is a name or attribute chain;
+                         any other pattern leaves the match statement as it is)
 """
 
 from __future__ import annotations
@@ -39,6 +45,73 @@ def _blocks(node):
             yield fld, lst
 
 
+def _simple_subject(e: ast.expr) -> bool:
+    while isinstance(e, ast.Attribute):
+        e = e.value
+    return isinstance(e, ast.Name)
+
+
+def _pattern_test(pat, subj: ast.expr):
+    """(test expression | None for 'always', capture name | None) or raises ValueError."""
+    from .astutil import clone
+
+    if isinstance(pat, ast.MatchValue):
+        return ast.Compare(left=clone(subj), ops=[ast.Eq()], comparators=[clone(pat.value)]), None
+    if isinstance(pat, ast.MatchSingleton):
+        return ast.Compare(left=clone(subj), ops=[ast.Is()], comparators=[ast.Constant(value=pat.value)]), None
+    if isinstance(pat, ast.MatchAs) and pat.pattern is None:
+        return None, pat.name
+    if isinstance(pat, ast.MatchAs):
+        t, cap = _pattern_test(pat.pattern, subj)
+        if cap is not None:
+            raise ValueError("nested capture")
+        return t, pat.name
+    if isinstance(pat, ast.MatchClass) and not pat.patterns and not pat.kwd_patterns:
+        return ast.Call(func=ast.Name(id="isinstance", ctx=ast.Load()), args=[clone(subj), clone(pat.cls)], keywords=[]), None
+    if isinstance(pat, ast.MatchOr):
+        subs = [_pattern_test(p_, subj) for p_ in pat.patterns]
+        if any(cap is not None or t is None for t, cap in subs):
+            raise ValueError("capture / wildcard inside an or-pattern")
+        if all(isinstance(p_, ast.MatchValue) for p_ in pat.patterns):
+            return ast.Compare(left=clone(subj), ops=[ast.In()], comparators=[ast.Tuple(elts=[clone(p_.value) for p_ in pat.patterns], ctx=ast.Load())]), None
+        return ast.BoolOp(op=ast.Or(), values=[t for t, _ in subs]), None
+    raise ValueError(f"pattern {type(pat).__name__}")
+
+
+def lower_match(st: ast.Match, counter: list) -> list[ast.stmt]:
+    """The if/elif chain equivalent to a match statement of simple patterns (or [st] unchanged)."""
+    from .astutil import clone
+
+    pre: list[ast.stmt] = []
+    subj = st.subject
+    if not _simple_subject(subj):
+        counter[0] += 1
+        tmp = f"_m{counter[0]}"
+        pre.append(ast.copy_location(ast.Assign(targets=[ast.Name(id=tmp, ctx=ast.Store())], value=subj), st))
+        subj = ast.Name(id=tmp, ctx=ast.Load())
+    arms = []
+    try:
+        for c in st.cases:
+            t, cap = _pattern_test(c.pattern, subj)
+            body = list(c.body)
+            if cap:
+                body = [ast.copy_location(ast.Assign(targets=[ast.Name(id=cap, ctx=ast.Store())], value=clone(subj)), c.body[0])] + body
+                if c.guard is not None:
+                    raise ValueError("guard on a capture pattern")
+            if c.guard is not None:
+                t = c.guard if t is None else ast.BoolOp(op=ast.And(), values=[t, c.guard])
+            arms.append((t, body))
+    except ValueError:
+        return [st]
+    chain: list[ast.stmt] = []
+    for t, body in reversed(arms):
+        if t is None:
+            chain = body
+        else:
+            chain = [ast.copy_location(ast.If(test=t, body=body, orelse=chain), body[0])]
+    return pre + chain
+
+
 def canon_function(fn) -> int:
     """Rewrite ``fn`` in place; returns the number of rewrites."""
     changed = 0
@@ -61,6 +134,7 @@ def canon_function(fn) -> int:
                         if len(tg_) == 1 and isinstance(tg_[0], ast.Name) and tg_[0].id == b_.value.id and b_.value.id not in {n.id for n in ast.walk(a_.value) if isinstance(n, ast.Name)}:
                             pairs[b_.value.id] = pairs.get(b_.value.id, 0) + 1
     mergeable = {nm for nm, k in pairs.items() if counts.get(nm, 0) == 2 * k and nm not in params}
+    match_counter = [0]
 
     def rewrite_block(stmts: list[ast.stmt]) -> list[ast.stmt]:
         nonlocal changed
@@ -78,6 +152,16 @@ def canon_function(fn) -> int:
                 if isinstance(st, ast.Match):
                     for c in st.cases:
                         c.body = rewrite_block(c.body)
+            # C4
+            if isinstance(st, ast.Match):
+                low = lower_match(st, match_counter)
+                if not (len(low) == 1 and low[0] is st):
+                    changed += 1
+                    # the chain may itself contain tests / exits the other rewrites apply to
+                    low = rewrite_block(low)
+                    out.extend(low)
+                    i += 1
+                    continue
             # C2
             if isinstance(st, ast.If) and isinstance(st.test, ast.UnaryOp) and isinstance(st.test.op, ast.Not) and st.orelse and not (len(st.orelse) == 1 and isinstance(st.orelse[0], ast.If)):
                 st.test, st.body, st.orelse = st.test.operand, st.orelse, st.body
